@@ -730,6 +730,12 @@ fn process_attribute<'input>(
             return Err(Error::UnexpectedXmlnsUri(pos));
         }
 
+        // The prefix 'xmlns' MUST NOT be declared.
+        if local == XMLNS {
+            let pos = ctx.doc.text_pos_at(range.start);
+            return Err(Error::InvalidElementNamePrefix(pos));
+        }
+
         let is_xml_ns_uri = value.as_str() == NS_XML_URI;
 
         // The prefix 'xml' is by definition bound to the namespace name
